@@ -12,615 +12,573 @@ Definition show_fres (r : fres) : string :=
   end.
 Definition check (rs : list rune) : string := digest (show_fres (format_res rs)).
 Definition full (rs : list rune) : string := show_fres (format_res rs).
-Eval vm_compute in ("<<<M309>>>" ++ check (runes_of_ascii "
-MetaData Logon{zchar[ 7
-    ] BodyLength , char Header ,
-    // @lengthOf(
-    int8
-    x_y_z// @lengthOf(
-`u8 x,`
-, i32 falsey , //
-int16 lengthOf`two words`
-, } root packet options1 { repeat	A BodyLength
-,
-metadata { u64 calculatedFrom `` , } ,
-body { i16
-    matchKey ,	uint16
-packetx
-    `// not a comment` ,
-a1 // 50% %s
-`` ,repeat packetx
-    // " ++ [27880; 37322]%N ++ runes_of_ascii "
-    ,
-}  , body	u8x `a\`	, @tag(
-10
-    ) @tag(00 )
-    // c
-    @rightPad('\x00' ) repeat tag { i16 u
-    `" ++ [233]%N ++ runes_of_ascii "`, }
-,
-// a // b
-// c
-@lengthOf(u )@calculatedFrom( """ ++ [128512]%N ++ runes_of_ascii """ ) i16 falsey  ,
-    f32a	@lengthOf(
-uint8x )
-    `it's`, asx
-    @lengthOf(// 50% %s
-Header )`two words` ,
-    // `tick` ""quote"" 'q'
-    @lengthOf( A//
-)@lengthOf( int ) @calculatedFrom(
-    ""1"")
-    char[] uint8x , x_y_z @lengthOf( Foo)
-`crlf
-line` ,
-    } packet// @lengthOf(
-stringy{ repeat  string len , @calculatedFrom(
-    ""{,}"" )
-    repeat
-    o//
-{ u64 float , } ,
-    match	i64_ as
-    Pad
-{
-[ 1 ] :	roots , ""it's""
-    // packet A { u8 x, }
-    : // @lengthOf(
-uint8x 1 :
-    MetaDataX ,[255 ,
-""a\""b""  , // `tick` ""quote"" 'q'
-""" ++ [233]%N ++ runes_of_ascii "t" ++ [233]%N ++ runes_of_ascii """ //	t
-, 65535 ,4294967296 , 7 , 0123456789
-] :len
-, 255 : metadata
-, ""it's"" :calculatedFrom ,
-    // `tick` ""quote"" 'q'
-    }, @lengthOf( msg_type )
-falsey @calculatedFrom( """ ++ [28040; 24687]%N ++ runes_of_ascii """
-) ,	repeat char[] trueish , zchar[ 1 ]A ,// `tick` ""quote"" 'q'
-repeat metadata {zchar[
-// c
-//x
-7 ]	Pad  , }	,
-    @tag( 3//
-) i32 body
-`u8 x,` , } // trailing space ")).
-Eval vm_compute in ("<<<M313>>>" ++ check (runes_of_ascii "root	packet packetx { /// triple
-@tag(//
-007	) int16
-int``
-    // `tick` ""quote"" 'q'
-    ,@calculatedFrom( ""x y"" ) repeat string a1
-`it's` ,@lengthOf(Header
-    )
-repeat
-char[ 1
-    ]
-    string_ `` , uint64
-falsey @lengthOf( i8i8 )
-    ,
-@lengthOf( u ) match
-    roots
-    as u128 {[ ""`tick`"" // " ++ [27880; 37322]%N ++ runes_of_ascii "
-,
-4294967296
-, """" ,
-65535 ,""" ++ [28040; 24687]%N ++ runes_of_ascii """ ,
-    /// triple
-    ""CRC32""
-    , ""a	b"" , ""a	b""] : options1
-,[ 007, ""abc"" , 65535  ] :
-A, 7 : f32a ,""abc""
-// " ++ [27880; 37322]%N ++ runes_of_ascii "
-// packet A { u8 x, }
-:
-    i8i8 , ""it's""	:
-o //	t
-, [ ""{,}"" /// triple
-, // `tick` ""quote"" 'q'
-42
-, 65535
-    //
-    ,"""" // `tick` ""quote"" 'q'
-,
-""a\""b"", 4294967296, 0
-    ] :T
-/// triple
-//x
-} ,
-@tag( 7 )	char
-o @calculatedFrom(  ""// no comment"")  , repeat f32
-    float// packet A { u8 x, }
-`line1
-line2` , @lengthOf( f32a )
-match rootA// c
-as matchKey {007	:x // packet A { u8 x, }
-,
-    """ ++ [233]%N ++ runes_of_ascii "t" ++ [233]%N ++ runes_of_ascii """
-:
-    charz
-,[ ""x y"" ,4294967296
-, 255 , 00
-// trailing space 
-// a // b
-]	: len} , @tag(
-0123456789 )	repeat
-    trueish
-    // @lengthOf(
-    i64_ , }packet
-    lengthOf
-{ }// a // b
-packet len
-{ @calculatedFrom(
-    /// triple
-    ""a	b"")  _x
-    roots`a\`, }
-//	t
-")).
-Eval vm_compute in ("<<<M1942>>>" ++ check (runes_of_ascii "// top
-  options 	 // c0a
-    // c0b
-	{	// c1a
-	// c1b
-StringPrefixLenType=  // c3
-  u16 	 // c4a
-    // c4b
-	  ;  // c5
+Eval vm_compute in ("<<<M1637>>>" ++ check (runes_of_ascii "options {
+    matchKey = true;
+    packetx = uint32;
+    metadata = int64;
+    Packet = float64
+    _x = """ ++ [233]%N ++ runes_of_ascii "t" ++ [233]%N ++ runes_of_ascii """
+}
 
-	ArrayPrefixLenType// c6
-
-  =
-u64
-	// c8
-    	;  }
-
-// c10
-	packet// c11
-	Order { // c13a
-    // c13b
-float64
-    Ref // c15a
-	// c15b
-	,	// c16
-repeat// c17a
-  	// c17b
-  i32
-lastPx 	 // c19
-    , 
-	    // c20
-    } 
-  // c21
-  	packet
-	Fill 
-// c23
-  	{ 
-
-    // c24
-	zchar[ 9 // c26
-] 	 // c27a
-// c27b
-
-Ref 
-
-    // c28
-    ,	// c29
-  zchar[ // c30a
-    // c30b
-
-4
-]
-
-// c32
-
-	Px  // c33
-    ,	// c34
-	Order 	 // c35a
-  // c35b
-    , 	 // c36
-  int8	// c37
-  count// c38
-
-,// c39a
-	  // c39b
-  	}
-// c40
-
-packet 	 // c41a
-  // c41b
-
-	Cancel 
-{// c43
-    	i16
-Side2// c45
-	, 	 // c46
-	  Order // c47a
-      // c47b
-	, // c48
-		} root
-packet 	 // c51
-	Party  // c52
-	{float64  // c54
-
-	Px
-    ,  // c56
-  zchar[ 
-
-    // c57
-	  1 
-      // c58
-		]// c59
-  	clOrdID 	 // c60
-      , 	 // c61
-	  }
-
-")).
-Eval vm_compute in ("<<<M1833>>>" ++ check (runes_of_ascii "root packet len {
-    match x as metadata {
-        [1, 0, """", ""a	b"", 00] : pack,
-        [""// no comment"", ""x y"", """ ++ [233]%N ++ runes_of_ascii "t" ++ [233]%N ++ runes_of_ascii """] : Packet,
-    },
-    repeat lengthOf u128,
-    @calculatedFrom(""it's"")
-    @lengthOf(calculatedFrom)
-    @lengthOf(u)
-    metadata {
-        int8 lengthOf `crlf
-                line`,
-    },
+root packet asx {
+    @rightPad('\x00')
+    @calculatedFrom("""")
     @tag(4294967296)
-    calculatedFrom {
-        f32 i64_ `" ++ [233]%N ++ runes_of_ascii "`,
+    msg_type {
+        repeat zchar[65535] charz `{ , }`,
+        char roots,
+        T {
+            rootA len,
+        },
+        repeat u128 `u8 x,`,
     },
-    @lengthOf(BodyLength)
-    repeat char[65535] float,
-    @calculatedFrom(""\" ++ [233]%N ++ runes_of_ascii """)
-    i64_ {
-        match stringy as _x {
-            //	t
-            [4294967296, 3] : i8i8,
-            [""a\""b""] : x_y_z,
-            3 : len,
+}
+
+root packet MetaDataX {
+    // c
+    char[4294967296] Z9_,
+    lengthOf rootA `{ , }`,
+    @rightPad('0')
+    zchar[00] i8i8,
+    char[1] a1,
+    // c
+    float32 crc `
+        `,
+    Z9_ {
+        f32a {
+            float32 len,
+            f32a {
+                char[0] pack @calculatedFrom(""it's""),
+                T @lengthOf(f32a),
+                i64 lengthOf @calculatedFrom(""x y""),
+                zchar[4294967296] As @calculatedFrom(""x y""),
+            },
+        },
+        repeat calculatedFrom {
+            repeat Packet {
+                x,
+            },
+        },
+        u8x {
+            metadata @calculatedFrom(""1""),
+            repeat zchar[65535] Z9_,
+            // " ++ [128512]%N ++ runes_of_ascii " emoji
+            // a // b
+        },
+        match As as repeatCount {
+            65535 : roots,
+            ""packet"" : uint8x,
+            3 : A,
+            ""{,}"" : leftPad,
         },
     },
-    @tag(0)
-    zchar[7] x_y_z,
-    @lengthOf(Header)
-    repeat u64 As `
-        `,// " ++ [27880; 37322]%N ++ runes_of_ascii "
-    @rightPad( )
-    /// triple
-    @rightPad(  '\x00')
-    u16 Header `{ , }`,
+    @calculatedFrom(""// no comment"")
+    repeat stringy asx,
+    char[] MetaDataX @lengthOf(A),
+    @rightPad('0')
+    @leftPad(' ')
+    Z9_ @calculatedFrom(""a\""b""),
+    match o as repeatCount {
+        [3, 0123456789] : string_,
+        4294967296 : Logon,
+        7 : o,
+    },
+}
+
+packet body {
 }")).
-Eval vm_compute in ("<<<M1962>>>" ++ check (runes_of_ascii "
-options {
-ArrayPrefixLenType
-=
-u32
-; 
-FixedStringPadFromLeft
-    =false  ;
-FixedStringPadChar	=
+Eval vm_compute in ("<<<M378>>>" ++ check (runes_of_ascii "options {
+	StringPrefixLenType = u16;
+	ArrayPrefixLenType = u16;
+}
 
-'0'
-; }
-    packet Trade{ repeat
+packet SampleBinary {
+    uint16 MsgType `" ++ [28040; 24687; 31867; 22411]%N ++ runes_of_ascii "`,
+    u16 BodyLenght @lengthOf(Body) `" ++ [28040; 24687; 20307; 38271; 24230]%N ++ runes_of_ascii "`,
+    match MsgType as Body {
+        1 : Logon,
+        2 : Logout,
+        3 : Heartbeat,
+        4 : RiskControlRequest,
+        5 : RiskControlResponse,
+    },
+        @calculatedFrom(""CRC32"")
+    u32 Ckecksum `" ++ [26657; 39564; 21644]%N ++ runes_of_ascii "`,
+}
 
-InVenue78{
-u16
-tag7 , repeat
+packet Logon {
+     @leftPad('0')
+    char[10] UserName `" ++ [29992; 25143; 21517]%N ++ runes_of_ascii "`,
+    string Password `" ++ [23494; 30721]%N ++ runes_of_ascii "`,
+    uint64 ClientId `" ++ [23458; 25143; 31471]%N ++ runes_of_ascii "ID`,
+    u16 HeartbeatInterval `" ++ [24515; 36339; 38388; 38548]%N ++ runes_of_ascii "`,
+}
 
-InLastpx9	{  u8
-	pad0
-    ,
-    } ,
-    int64
-Tail  ,repeat
-InQty37 {
-    char[2  ] OrderId ,
-	zchar[
-	6
-] 
-lastPx
-    , int64	Qty
-,
-}, uint8
-Side2 ,}
-, }
+packet Logout {
+      @rightPad('0')
+    char[10] UserName `" ++ [29992; 25143; 21517]%N ++ runes_of_ascii "`,
+    uint64 ClientId `" ++ [23458; 25143; 31471]%N ++ runes_of_ascii "ID`,
+}
 
-packet
-Logon { 
-repeat
-string
-venue,@rightPad
+packet Heartbeat {
+}
 
-(
-'\x00'	)
-char[ 3
-	]
-sym
-,
-    zchar[
+packet RiskControlRequest {
+    string UniqueOrderId `" ++ [21807; 19968; 35746; 21333; 21495]%N ++ runes_of_ascii "`,
+    char[16] ClOrdID `" ++ [23458; 25143; 35746; 21333; 21495]%N ++ runes_of_ascii "`,
+    char[3] MarketID `" ++ [24066; 22330]%N ++ runes_of_ascii "id`,
+    char[12] SecurityID `" ++ [35777; 21048; 20195; 30721]%N ++ runes_of_ascii "`,
+    char Side `" ++ [20080; 21334; 26041; 21521]%N ++ runes_of_ascii "`,
+    char OrderType `" ++ [35746; 21333; 31867; 22411]%N ++ runes_of_ascii "`,
+    u64 Price `" ++ [20215; 26684]%N ++ runes_of_ascii "`,
+    u32 Qty `" ++ [25968; 37327]%N ++ runes_of_ascii "`,
+    repeat string ExtraInfo `" ++ [38468; 21152; 20449; 24687]%N ++ runes_of_ascii "`,
+    repeat SubOrder {
+    		char[16] ClOrdID `" ++ [23376; 35746; 21333; 21495]%N ++ runes_of_ascii "`,
+    		u64 Price `" ++ [23376; 35746; 21333; 20215; 26684]%N ++ runes_of_ascii "`,
+    		u32 Qty `" ++ [23376; 35746; 21333; 25968; 37327]%N ++ runes_of_ascii "`,
+    	},
+}
 
-    9  ] count , zchar[ 7
+packet RiskControlResponse {
+    string UniqueOrderId `" ++ [21807; 19968; 35746; 21333; 21495]%N ++ runes_of_ascii "`,
+    i32 Status `" ++ [29366; 24577]%N ++ runes_of_ascii "`,
+    string Msg `" ++ [32467; 26524; 20449; 24687]%N ++ runes_of_ascii "`,
+    repeat Detail,
+}
 
-]	f1 ,
-Trade  ,
-	}	packet Logout
-
-{ }	root packet
-    Reject {
-int32 sym
-,u8
-Px  ,  u32
-Tail
-    @lengthOf(
-Body
-
-    ),
-
-match	Px 
-as Body { 184:
-
-Trade
-	,
-    173  : Logon
-
-    ,12 :	Logout  , }
-    ,
-u32 tag7 @calculatedFrom( ""CRC32""	)
-,
+packet Detail {
+    string RuleName `" ++ [35268; 21017; 21517; 31216]%N ++ runes_of_ascii "`,
+    u16 Code `" ++ [21407; 22240; 20195; 30721]%N ++ runes_of_ascii "`,
+}")).
+Eval vm_compute in ("<<<M1366>>>" ++ check (runes_of_ascii "options {
+    LittleEndian = true;
+    StringPrefixLenType = u16;
+    ArrayPrefixLenType = u8;
+    FixedStringPadChar = ' ';
+}
+packet Ack {
+    @leftPad(' ') char[5] lastPx,
+    zchar[4] count,
+    repeat InVenue30 {
+        char[9] Side2,
+        char[12] venue,
+    },
+}
+packet Order {
+    int16 Note,
+    repeat InAcct28 {
+        InSym3 {
+            Ack,
+            char[4] lastPx,
+            char[1] venue,
+            f32 Ref,
+        },
+        repeat InTag729 {
+            char[3] Side2,
+            uint64 Acct,
+            char[] price,
+            zchar[9] Note,
+            zchar[9] venue,
+        },
+        char[] count,
+        Ack,
+        char[] Px,
+    },
+    u8 f1,
+    Ack,
+}
+packet Fill {
+    zchar[7] x,
+    Order,
+    @leftPad(' ') char[9] venue,
+    string count,
+    char[] Flags,
+}
+packet Logon {
+}
+packet Reject {
+    Order,
+    char[] sym,
+}
+root packet Quote {
+    string price,
+    i64 Flags,
+    repeat Fill,
+    zchar[9] x,
+    f32 lastPx,
+    repeat Ack,
 }
 ")).
-Eval vm_compute in ("<<<M1153>>>" ++ check (runes_of_ascii "// top
-options // c0
-{ // c1
-uint8x // c2
+Eval vm_compute in ("<<<M1361>>>" ++ check (runes_of_ascii "// top
+options
+    // c0
+{ LittleEndian // c2a
+  // c2b
 = // c3
-007 // c4
-; // c5
-lengthOf // c6
-= // c7
-i8 // c8
-; // c9
-} // c10
-packet // c11
-i64_ // c12
-{ // c13
-@calculatedFrom( // c14
-""1"" // c15
-) // c16
-@tag( // c17
-3 // c18
-) // c19
-@lengthOf( // c20
-rootA // c21
-) // c22
-repeat // c23
-int8 // c24
-Packet // c25
-`tab	here` // c26
-, // c27
-} // c28
-packet // c29
-_x // c30
-{ // c31
-matchKey // c32
-x // c33
-`" ++ [28040; 24687; 31867; 22411]%N ++ runes_of_ascii "` // c34
-, // c35
-int32 // c36
-calculatedFrom // c37
-`100% of %d` // c38
-, // c39
-@lengthOf( // c40
-trueish // c41
-) // c42
-Packet // c43
-, // c44
-repeat // c45
-f32 // c46
-o // c47
-, // c48
-} // c49
-")).
-Eval vm_compute in ("<<<M1587>>>" ++ check (runes_of_ascii "// top
-  packet  // c0
-  _x 	 // c1
-		{ // c2
-
-match// c3
-  Foo  // c4
-as  // c5
-    Z9_  // c6
-  	{  // c7
-      ""a	b""// c8
-      : 	 // c9
-
-Pad // c10
-    , 	 // c11
-	} // c12
-    , 	 // c13
-  repeat// c14
-	x	// c15
-
-  `// not a comment`// c16
-    ,	// c17
-@rightPad	// c18
-	( // c19
-    ' ' // c20
-  ) 	 // c21
-    @calculatedFrom(	// c22
-  ""a\\""	// c23
-	) // c24
-metadata 	 // c25
-
-MetaDataX// c26
-	, // c27
-      @tag(  // c28
-		0 // c29
-	) 	 // c30
-  	Logon// c31
-	int // c32
-	`two words` 	 // c33
-	, // c34
-  }	// c35")).
-Eval vm_compute in ("<<<M1311>>>" ++ check (runes_of_ascii "packet A // c1
-{ // c2
-u8 a // c4a
-  // c4b
-,
+true // c4
+;
     // c5
-}
-    // c6
-packet
+StringPrefixLenType =
     // c7
-B // c8
-{
-    // c9
-u16 // c10
-b , // c12
-}
+u16 // c8
+; // c9a
+  // c9b
+ArrayPrefixLenType = u16 // c12a
+  // c12b
+;
     // c13
-root // c14a
-  // c14b
-packet P {
-    // c17
-u8 K ,
-    // c20
-match // c21
-K // c22
-as
-    // c23
-M // c24a
-  // c24b
-{ [
-    // c26
-1 // c27a
-  // c27b
-, // c28
-2 // c29a
-  // c29b
-]
-    // c30
-:
-    // c31
-A // c32
-, // c33
-3 // c34
-:
-    // c35
-B // c36a
-  // c36b
-, // c37
-7 // c38
-: // c39a
-  // c39b
-A // c40
-,
-    // c41
-} // c42
-, // c43
-} ")).
-Eval vm_compute in ("<<<M1911>>>" ++ check (runes_of_ascii "
-MetaData 
-o  //
-{
-    MetaDataX	As 
-`crlf
-line` ,
-    string_
-	T
-
-    ,
-    zchar[
-
-    1
-]
-    Header, 	 //	t
-}	packet packetx{// " ++ [128512]%N ++ runes_of_ascii " emoji
-		repeat  //	t
-  char[ 10
-    // @lengthOf(
-	//
-	] crc `a\`
-
-, @tag(42	) repeat char[]
-	asx
-    `// not a comment`
-, 
-zchar[
-// a // b
-	// " ++ [128512]%N ++ runes_of_ascii " emoji
-    	007
-]
-
-len @lengthOf(
-u )	`a\`
-	,	@leftPad
-    ( '\x00' ) @tag(
-
-    3 )
-
-    @calculatedFrom(  ""a\""b""
-
-)
-
-char[  //x
-10
-] As`
-` ,  } ")).
-Eval vm_compute in ("<<<M1348>>>" ++ check (runes_of_ascii "  packet
-
-NewOrder
-	{
-u32 
-qty , }
+FixedStringPadFromLeft // c14
+= // c15a
+  // c15b
+true
+    // c16
+; // c17a
+  // c17b
+FixedStringPadChar = // c19
+'0' // c20
+; // c21
+}
+    // c22
 packet
-Cancel
-
-{	u64 id, } packet Business
-
+    // c23
+Leg { // c25a
+  // c25b
+u16 // c26
+Flags // c27
+,
+    // c28
+u8 price , } // c32
+packet
+    // c33
+Quote // c34a
+  // c34b
+{ uint16
+    // c36
+count
+    // c37
+, // c38
+InNote89 // c39a
+  // c39b
+{ repeat Leg // c42a
+  // c42b
+, // c43a
+  // c43b
+}
+    // c44
+, } root // c47
+packet // c48a
+  // c48b
+Ack // c49a
+  // c49b
 {
-	u8
-Kind
-, match
-
-    Kind	as Detail
-{ 1:	NewOrder ,
-
-2 :	Cancel
-    ,
-    } 
-,}packet
-
-    TcpFrame {
-    u8	T  ,
-match
-	T
-    as
-Body
-{	1
-:  Business  , }	,
-} packet 
-UdpFrame {
-
-    u8  U,
-match  U
-
-    as
-Body{1
-: Business
-, } ,	Business extra
-
-    , }root
-packet 
-Wire 
-{
-TcpFrame ,	UdpFrame,
-
-    }
+    // c50
+char[ 3 ]
+    // c53
+price // c54a
+  // c54b
+, // c55
+u64 sym ,
+    // c58
+zchar[ // c59
+1 // c60a
+  // c60b
+] // c61
+Tail // c62a
+  // c62b
+, // c63
+} // c64a
+  // c64b
 ")).
+Eval vm_compute in ("<<<M116>>>" ++ check (runes_of_ascii "packet crc {uint16
+    // " ++ [128512]%N ++ runes_of_ascii " emoji
+    MetaDataX @calculatedFrom( ""{,}""
+)	`two words`
+, @tag( 3
+    //x
+    )repeat roots { repeat string	f32a ,	} , @tag(	42 )
+char[]//
+a1  `" ++ [28040; 24687; 31867; 22411]%N ++ runes_of_ascii "` ,@calculatedFrom(// a // b
+""packet"" // trailing space 
+) i16
+    // trailing space 
+    float
+    `tab	here` , match metadata as Logon	{
+    """"
+    :u , 42: MetaDataX
+255:
+roots,[ 3 ,10
+//
+// `tick` ""quote"" 'q'
+]: _x 4294967296 :
+chars
+10 // " ++ [128512]%N ++ runes_of_ascii " emoji
+: uint8x , }
+,
+@lengthOf(  trueish )
+    repeat char[// 50% %s
+007] roots ,}  options { roots  = int32 ; } root packet Logon
+    { // packet A { u8 x, }
+@leftPad
+( '\x00')asx @calculatedFrom(
+    ""// no comment"" ) `{ , }`
+    , }
+MetaData
+    Packet {
+    i32
+// " ++ [128512]%N ++ runes_of_ascii " emoji
+//
+trueish `100% of %d`, }")).
+Eval vm_compute in ("<<<M1501>>>" ++ check (runes_of_ascii "packet crc {
+    uint16 MetaDataX @calculatedFrom(""{,}"") `two words`,
+    @tag(3)
+    repeat roots {
+        repeat string f32a,
+    },
+    @tag(42)
+    char[] a1 `" ++ [28040; 24687; 31867; 22411]%N ++ runes_of_ascii "`,
+    @calculatedFrom(""packet"")
+    i16 float `tab	here`,
+    match metadata as Logon {
+        """" : u,
+        42 : MetaDataX,
+        255 : roots,
+        [3, 10] : _x,
+        4294967296 : chars,
+        10 : uint8x,
+    },
+    @lengthOf(trueish)
+    repeat char[007] roots,
+}
+
+options {
+    roots = int32;
+}
+
+root packet Logon {
+    // packet A { u8 x, }
+    @leftPad('\x00')
+    asx @calculatedFrom(""// no comment"") `{ , }`,
+}
+
+MetaData Packet {
+    i32 trueish `100% of %d`,
+}")).
+Eval vm_compute in ("<<<M1136>>>" ++ check (runes_of_ascii "// top
+packet
+    // c0
+_x
+    // c1
+{
+    // c2
+match
+    // c3
+Foo
+    // c4
+as
+    // c5
+Z9_
+    // c6
+{
+    // c7
+""a	b""
+    // c8
+:
+    // c9
+Pad
+    // c10
+,
+    // c11
+}
+    // c12
+,
+    // c13
+repeat
+    // c14
+x
+    // c15
+`// not a comment`
+    // c16
+,
+    // c17
+@rightPad
+    // c18
+(
+    // c19
+' '
+    // c20
+)
+    // c21
+@calculatedFrom(
+    // c22
+""a\\""
+    // c23
+)
+    // c24
+metadata
+    // c25
+MetaDataX
+    // c26
+,
+    // c27
+@tag(
+    // c28
+0
+    // c29
+)
+    // c30
+Logon
+    // c31
+int
+    // c32
+`two words`
+    // c33
+,
+    // c34
+}
+    // c35
+")).
+Eval vm_compute in ("<<<M1508>>>" ++ check (runes_of_ascii "
+// @lengthOf(
+packet
+Pad{ string_
+
+    @calculatedFrom( """ ++ [128512]%N ++ runes_of_ascii """) , 
+	//	t
+  // c
+	char[	255 ]	metadata	@calculatedFrom(
+""1"") 
+	    // trailing space 
+  // 50% %s
+  `line1
+line2`
+
+,@rightPad
+
+    ( '0')@lengthOf(metadata)@tag(007 ) repeat char[ 0
+
+    ] MetaDataX
+    , uint8x
+
+,
+
+    @tag(
+
+    0
+)  f32	uint8x
+
+    @lengthOf(
+
+    roots
+), repeat
+Packet 
+
+    //x
+  // " ++ [27880; 37322]%N ++ runes_of_ascii "
+  	, MetaDataX`line1
+line2`,
+
+    @lengthOf(int 
+)
+	string
+len  `// not a comment` ,
+    char[ 
+3// c
+  	]
+Pad , // " ++ [27880; 37322]%N ++ runes_of_ascii "
+	}")).
+Eval vm_compute in ("<<<M268>>>" ++ check (runes_of_ascii "packet x_y_z {repeat
+asx { falsey	@lengthOf( u )`100% of %d`
+    ,repeat
+matchKey { x_y_z@calculatedFrom(""a\\""
+// trailing space 
+// trailing space 
+)
+, i64
+// 50% %s
+//
+calculatedFrom @calculatedFrom( ""// no comment"" )  `{ , }` , }// 50% %s
+,
+// c
+//	t
+char[ // 50% %s
+007 ] Foo @calculatedFrom( ""abc""
+), }
+    , repeat
+    uint32 Pad, repeat Logon
+{
+Logon
+    {
+    char[] packetx @calculatedFrom(
+// " ++ [128512]%N ++ runes_of_ascii " emoji
+// `tick` ""quote"" 'q'
+""it's"" )
+`
+` ,
+}, i8 len, asx , } , }
+")).
+Eval vm_compute in ("<<<M1132>>>" ++ check (runes_of_ascii "// top
+packet // c0
+float // c1
+{ // c2
+@rightPad // c3
+( // c4
+) // c5
+rootA // c6
+@lengthOf( // c7
+trueish // c8
+) // c9
+, // c10
+stringy // c11
+@lengthOf( // c12
+matchKey // c13
+) // c14
+, // c15
+char[ // c16
+4294967296 // c17
+] // c18
+pack // c19
+@lengthOf( // c20
+uint8x // c21
+) // c22
+, // c23
+} // c24
+root // c25
+packet // c26
+trueish // c27
+{ // c28
+repeat // c29
+uint64 // c30
+u128 // c31
+`say ""hi""` // c32
+, // c33
+} // c34
+")).
+Eval vm_compute in ("<<<M371>>>" ++ check (runes_of_ascii "MetaData msg_type {//
+u8
+    // `tick` ""quote"" 'q'
+    Foo `// not a comment` ,char[
+    007] Pad
+`u8 x,`,f32
+    o
+    , char[0123456789]
+falsey ,
+    float64 metadata
+, zchar[0123456789
+] uint8x ,}
+    packet // @lengthOf(
+string_
+{ i16 leftPad `// not a comment` ,
+    }packet //
+zchar {
+MetaDataX @calculatedFrom(""a	b""
+    //	t
+    ) //	t
+`tab	here` ,@tag(255 )string
+    i64_
+// 50% %s
+// 50% %s
+,	}")).
 Eval vm_compute in ("<<<M1156>>>" ++ check (runes_of_ascii "// top
 MetaData // c0
 msg_type // c1
@@ -656,446 +614,463 @@ repeatCount // c29
 { // c30
 } // c31
 ")).
-Eval vm_compute in ("<<<M182>>>" ++ check (runes_of_ascii "options{ Logon='\x00';
-    Foo
-= ""// no comment""x
-=""a\""b"" }
-    packet rootA {	@tag( 007
-    ) @calculatedFrom( ""a\\""	) // `tick` ""quote"" 'q'
-u{ match
-o as
-    Foo { 255 : asx , ""a\""b"" : zchar, [  ""a	b""	,	""{,}"" , 10
-] : _x } ,// a // b
-char[42
-    ]
-As
-`a\` , int32 i64_
-    @calculatedFrom( """ ++ [28040; 24687]%N ++ runes_of_ascii """ ) // " ++ [27880; 37322]%N ++ runes_of_ascii "
-, repeat chars
-packetx
-    ,} , }
-")).
-Eval vm_compute in ("<<<M1800>>>" ++ check (runes_of_ascii "// top
-MetaData msg_type {
-    int32 As `crlf
-    line`,
-    // c6
-    MetaDataX x `a\`,// c10a
-    // c10b
-    int8 _x,// c13a
-    // c13b
-    char[] As `u8 x,`,
-    // c17
-    zchar[3] uint8x,// c22a
-    // c22b
-    As Foo,// c25a
-    // c25b
-}// c26
-
-root packet repeatCount {
-    // c30
-}// c31")).
-Eval vm_compute in ("<<<M1436>>>" ++ check (runes_of_ascii "
-packet
-
-    asx
-	{
-@calculatedFrom( 
-"""")
-	@tag(
-
-255  )
-        // packet A { u8 x, }
-	  // trailing space 
-    	int16 u8x  ,
-	@tag(
-	//
-
-007
-
-)
-
-    @tag(
-
-0
-
-/// triple
-    )	@tag( 
-1 )
-u@lengthOf(T
-	) , 
-    // `tick` ""quote"" 'q'
-      //x
-
-} // " ++ [128512]%N ++ runes_of_ascii " emoji
- 
-")).
-Eval vm_compute in ("<<<M502>>>" ++ check (runes_of_ascii "packet
-    asx { @calculatedFrom(
-""""  ) @tag( 255 )repeat
-// packet A { u8 x, }
-// trailing space 
-int16 u8x
-,
-@tag(
-    //
-    007 )
-    @tag( 0
-    /// triple
-    ) @tag( 1) u
-    @lengthOf( @lengthOf( T ),
-// `tick` ""quote"" 'q'
-//x
-} // " ++ [128512]%N ++ runes_of_ascii " emoji")).
-Eval vm_compute in ("<<<M1589>>>" ++ check (runes_of_ascii "  MetaData trueish
-{
-    string  // 50% %s
-    u
-
-,
-    // @lengthOf(
-	//x
-
-pack
-Pad
-
-    `say ""hi""`
-    , // a // b
-	int32	tag,
-    u8
-	asx 
-,// 50% %s
-    	i32 len ,
-int int
-	`100% of %d` , }MetaData  falsey{
-    } 
-    // @lengthOf(
- 
-")).
-Eval vm_compute in ("<<<M535>>>" ++ check (runes_of_ascii "packet
-    asx { @calculatedFrom(
-""""  ) @tag( 2@55 )repeat
-// packet A { u8 x, }
-// trailing space 
-int16 u8x
-,
-@tag(
-    //
-    007 )
-    @tag( 0
-    /// triple
-    ) @tag( 1) u
-    @lengthOf( T ),
-// `tick` ""quote"" 'q'
-//x
-} // " ++ [128512]%N ++ runes_of_ascii " emoji")).
-Eval vm_compute in ("<<<M483>>>" ++ check (runes_of_ascii "packet
-    asx { @calculatedFrom(
-""""  ) @tag( 255 )repeat
-// packet A { u8 x, }
-// trailing space 
-int16 u8x
-,
-@tag(
-    //
-    007 )
-    @tag( 0
-    /// triple
-    ) 1 @tag() u
-    @lengthOf( T ),
-// `tick` ""quote"" 'q'
-//x
-} // " ++ [128512]%N ++ runes_of_ascii " emoji")).
-Eval vm_compute in ("<<<M459>>>" ++ check (runes_of_ascii "packet
-    asx { @calculatedFrom(
-""""  ) @tag( 255 )repeat
-// packet A { u8 x, }
-// trailing space 
-int16 u8x
-,
-@tag(
-    //
-    [ )
-    @tag( 0
-    /// triple
-    ) @tag( 1) u
-    @lengthOf( T ),
-// `tick` ""quote"" 'q'
-//x
-} // " ++ [128512]%N ++ runes_of_ascii " emoji")).
-Eval vm_compute in ("<<<M339>>>" ++ check (runes_of_ascii "packet len
-    {
-    @calculatedFrom( ""{,}"" )
-zchar[ 10 ] packetx`line1
-line2` , @lengthOf( metadata
-) @calculatedFrom( ""a	b""
-    ) matchKey@lengthOf( As
-    ) , chars
-// 50% %s
-// a // b
-uint8x `a\` ,  char[ 65535 ] Foo,	}")).
-Eval vm_compute in ("<<<M191>>>" ++ check (runes_of_ascii "packet T { } MetaData lengthOf{  char[ 4294967296 ] a1	, float64
-    body `100% of %d`,
-asx Foo ,	u8x pack
-// @lengthOf(
-// " ++ [128512]%N ++ runes_of_ascii " emoji
-, zchar[
-    // @lengthOf(
-    0123456789 ] Z9_
-, char
-As `crlf
-line`
-, }
-")).
-Eval vm_compute in ("<<<M1910>>>" ++ check (runes_of_ascii "
-
-  options 
-{i8i8
-
-    =
-	uint8
-	pack
-	=
-	false
-
-T=
-	false
-; 
-msg_type
-        // `tick` ""quote"" 'q'
-// c
-	=
-0  falsey =
-char[
-    42  ]// trailing space 
-  ;	} 
-
-    // " ++ [128512]%N ++ runes_of_ascii " emoji
-")).
-Eval vm_compute in ("<<<M564>>>" ++ check (runes_of_ascii "MetaData u
-    { @rightPad MetaData o
-{ float uint8x
-`100% of %d` ,repeatCount u8x, string_ leftPad
-, i32
-    Foo , int64 x `two words` , calculatedFrom
-stringy `a\` ,
-}
-")).
-Eval vm_compute in ("<<<M708>>>" ++ check (runes_of_ascii "MetaData u
-    { } MetaData o
-{ float uint8x
-`100% of %d` ,repeatCount u8x, string_ leftPad
-, i32
-    Foo , int64 " ++ [252]%N ++ runes_of_ascii "ber `two words` , calculatedFrom
-stringy `a\` ,
-}
-")).
-Eval vm_compute in ("<<<M697>>>" ++ check (runes_of_ascii "MetaData u
-    { } MetaData o
-{ float uin\t8x
-`100% of %d` ,repeatCount u8x, string_ leftPad
-, i32
-    Foo , int64 x `two words` , calculatedFrom
-stringy `a\` ,
-}
-")).
-Eval vm_compute in ("<<<M644>>>" ++ check (runes_of_ascii "MetaData u
-    { } MetaData o
-{ float uint8x
-`100% of %d` ,repeatCount u8x, string_ leftPad
-, i32
-    Foo } int64 x `two words` , calculatedFrom
-stringy `a\` ,
-}
-")).
-Eval vm_compute in ("<<<M1491>>>" ++ check (runes_of_ascii "
-options
-{
-
-    } 
-options
-    {
-MetaDataX	=  char	;
-
+Eval vm_compute in ("<<<M234>>>" ++ check (runes_of_ascii "MetaData Header /// triple
+{ As
+options1 `two words` ,u64
+matchKey `100% of %d`
+    ,
     }
-MetaData Pad {
-
-    i8  // c
-
-metadata , string stringy
-
-    ,	int8 
-As
-
-    `{ , }`
-
-,}
+    root packet _x
+{ @lengthOf( i64_ )A @calculatedFrom(
+    // trailing space 
+    ""{,}"" )	, x matchKey  , o@calculatedFrom( //	t
+""{,}"" )	, @rightPad( '0' )
+@lengthOf(Z9_	)@calculatedFrom(
+    ""a\\"")
+zchar[ 65535
+] Packet @lengthOf(
+    Packet)	,}
 ")).
-Eval vm_compute in ("<<<M566>>>" ++ check (runes_of_ascii "MetaData u
-    { }  o
-{ float uint8x
-`100% of %d` ,repeatCount u8x, string_ leftPad
-, i32
-    Foo , int64 x `two words` , calculatedFrom
-stringy `a\` ,
-}
-")).
-Eval vm_compute in ("<<<M1787>>>" ++ check (runes_of_ascii "packet Inner {
-    // c2a
-    // c2b
-    u8 a,
-    // c5
-}// c6a
+Eval vm_compute in ("<<<M1886>>>" ++ check (runes_of_ascii "options {
+    LittleEndian
 
-// c6b
-root packet P {
-    repeat Inner items,// c14a
-    // c14b
-    u8 x,
-}
-// c18")).
-Eval vm_compute in ("<<<M1786>>>" ++ check (runes_of_ascii "options  {}
-    options
-	{ MetaDataX =
-	char; }
-MetaData
-	Pad{
-    i8
-metadata
+=
 
-, string
+true
+	;	}
+    packet Sub
+{
+    u8 
+a ,
+    @calculatedFrom( ""CRC16"" 
+)u64 
+SubSum
+	,
+    }  root
+packet  Frame	{
+	u16
+MsgType
 
-    stringy// c
-    	,
-int8	As
-	`{ , }`  ,
-}
-")).
-Eval vm_compute in ("<<<M1307>>>" ++ check (runes_of_ascii "packet A {
-    u8 a,
-}
-packet B {
-    u16 b,
-}
-root packet P {
-    u8 K,
-    match K as M {
-        1 : A,
-        1 : B,
-    },
-}
-")).
-Eval vm_compute in ("<<<M1272>>>" ++ check (runes_of_ascii "packet B {
-    u8 a,
-}
-root packet P {
-    u8 K,
-    u64 L @lengthOf(Body),
-    match K as Body {
-        1 : B,
-    },
-}
-")).
-Eval vm_compute in ("<<<M256>>>" ++ check (runes_of_ascii "  packet u8x { } MetaData Pad { //
-trueish lengthOf // 50% %s
-,
-    }
-    root packet
-trueish {
-//
-// 50% %s
-}
-")).
-Eval vm_compute in ("<<<M1224>>>" ++ check (runes_of_ascii "options { } options { MetaDataX = char ; } MetaData
-// c
-Pad { i8 metadata , string stringy , int8 As `{ , }` , }")).
-Eval vm_compute in ("<<<M892>>>" ++ check (runes_of_ascii "packet A {
-  match k as n {
-    [""a"", ""bb"", ""c c"", ""d"", ""e"", ""f"", ""g"", ""h"", ""i"", ""j"", ""k""] : B
-    2 : C
-  },
-}")).
-Eval vm_compute in ("<<<M907>>>" ++ check (runes_of_ascii "packet A {
-  match k as n {
-    [1, ""bb"", 007, ""d"", 5, ""f"", 7, ""h"", 9, ""j"", 11, ""l""] : B
-    2 : C
-  },
-}")).
-Eval vm_compute in ("<<<M894>>>" ++ check (runes_of_ascii "packet A {
-  match k as n {
-    [1, ""bb"", 007, ""d"", 5, ""f"", 7, ""h"", 9, ""j"", 11] : B
-    2 : C
-  },
-}")).
-Eval vm_compute in ("<<<M223>>>" ++ check (runes_of_ascii "// trailing space 
-packet tag	{
-//
-// 50% %s
+    , u16 BodyLen 
+@lengthOf(  Body
+) ,	Sub
+	Body
+    , string note
+
+    ,
 @calculatedFrom(
-""abc""
-)char[ 0] crc
-`u8 x,`
-, }
-")).
-Eval vm_compute in ("<<<M140>>>" ++ check (runes_of_ascii "packet f32a
-{
-    @tag( 007	)
-    // " ++ [27880; 37322]%N ++ runes_of_ascii "
-    i8i8
-Logon , }  options {} packet
-stringy {} //")).
-Eval vm_compute in ("<<<M1504>>>" ++ check (runes_of_ascii "packet
-A	{
-    @leftPad
-	(
+""CRC16""
+
 )
-char[ 4
-    ]
-x , @rightPad
-( )
-zchar[
+	u64 
+Checksum 
+,u8
+tail ,
 
-    2
+    }")).
+Eval vm_compute in ("<<<M329>>>" ++ check (runes_of_ascii "packet roots {  pack  ``
+, //	t
+T @lengthOf( tag ) , x{ match len as
+    packetx {	[10] : // c
+rootA ,
+    }, repeat
+string
+leftPad
+`
+` , //	t
+char[ 7 ] Packet
+@calculatedFrom(	""a	b""
+    ) ,
+    char[]
+    uint8x  ``
+// trailing space 
+// a // b
+,} ,
+uint16
+leftPad
+,
+}
+")).
+Eval vm_compute in ("<<<M542>>>" ++ check (runes_of_ascii "packet
+    asx { @calculatedFrom(
+""""  ) @tag( 255 )repeat
+// packet A { u8 x, }
+// trailing space 
+int16 u8x
+,
+@tag(
+    //
+    007 )
+    @tag( 0
+    /// triple
+    ) @tag( 1) u
+    @lengthOf( T @lengthOf ),
+// `tick` ""quote"" 'q'
+//x
+} // " ++ [128512]%N ++ runes_of_ascii " emoji")).
+Eval vm_compute in ("<<<M1402>>>" ++ check (runes_of_ascii "packet Sub
+    { u8
 
-] y , }")).
-Eval vm_compute in ("<<<M841>>>" ++ check (runes_of_ascii "packet A {
+    a 
+,@calculatedFrom( ""CRC16"" 
+) 
+i64
+
+SubSum ,}
+
+root	packet Frame
+
+{
+
+u16 MsgType
+	,u16
+BodyLen @lengthOf(	Body	),	Sub 
+Body
+    , string note
+
+    ,  @calculatedFrom(
+    ""CRC16""
+)
+
+i64 Checksum  ,u8 tail  ,}
+")).
+Eval vm_compute in ("<<<M543>>>" ++ check (runes_of_ascii "packet
+    asx { @calculatedFrom(
+""""  ) @tag( 255 )repeat
+// packet A { u8 x, }
+// trailing space 
+int16 u8x
+,
+@tag(
+    //
+    007 )
+    @tag( 0
+    /// triple
+    " ++ [65279]%N ++ runes_of_ascii ") @tag( 1) u
+    @lengthOf( T ),
+// `tick` ""quote"" 'q'
+//x
+} // " ++ [128512]%N ++ runes_of_ascii " emoji")).
+Eval vm_compute in ("<<<M513>>>" ++ check (runes_of_ascii "packet
+    asx { @calculatedFrom(
+""""  ) @tag( 255 )repeat
+// packet A { u8 x, }
+// trailing space 
+int16 u8x
+,
+@tag(
+    //
+    007 )
+    @tag( 0
+    /// triple
+    ) @tag( 1) u
+    @lengthOf( T ,)
+// `tick` ""quote"" 'q'
+//x
+} // " ++ [128512]%N ++ runes_of_ascii " emoji")).
+Eval vm_compute in ("<<<M451>>>" ++ check (runes_of_ascii "packet
+    asx { @calculatedFrom(
+""""  ) @tag( 255 )repeat
+// packet A { u8 x, }
+// trailing space 
+int16 u8x
+,
+
+    //
+    007 )
+    @tag( 0
+    /// triple
+    ) @tag( 1) u
+    @lengthOf( T ),
+// `tick` ""quote"" 'q'
+//x
+} // " ++ [128512]%N ++ runes_of_ascii " emoji")).
+Eval vm_compute in ("<<<M1339>>>" ++ check (runes_of_ascii "
+packet
+Logon
+	{  string
+user,	}
+    root  packet
+Frame
+{u8 K ,match
+
+K
+as	Body
+	{
+
+1
+:	Logon,  2
+    : Logout
+,
+
+    }
+
+,
+    Tail,
+    }
+    packet
+Logout {u16
+reason
+
+,
+}
+    packet  Tail
+
+{  u32 crc  , }
+
+")).
+Eval vm_compute in ("<<<M279>>>" ++ check (runes_of_ascii "MetaData zchar { }
+packet
+i8i8
+    { @calculatedFrom(""\n"") i8 tag@lengthOf(Packet)
+    // " ++ [128512]%N ++ runes_of_ascii " emoji
+    , lengthOf{	char[] leftPad
+`{ , }`  , i32 crc @calculatedFrom(  ""a\\"" /// triple
+)
+, },
+}
+")).
+Eval vm_compute in ("<<<M1267>>>" ++ check (runes_of_ascii "// top
+root
+    // c0
+packet
+    // c1
+P // c2
+{ // c3
+hdr {
+    // c5
+u8 // c6
+a // c7a
+  // c7b
+, } ,
+    // c10
+u8 // c11a
+  // c11b
+x // c12a
+  // c12b
+, // c13a
+  // c13b
+} ")).
+Eval vm_compute in ("<<<M647>>>" ++ check (runes_of_ascii "MetaData u
+    { } MetaData o
+{ float uint8x
+`100% of %d` ,repeatCount u8x, string_ leftPad
+, i32
+    Foo , int64 int64 x `two words` , calculatedFrom
+stringy `a\` ,
+}
+")).
+Eval vm_compute in ("<<<M642>>>" ++ check (runes_of_ascii "MetaData u
+    { } MetaData o
+{ float uint8x
+`100% of %d` ,repeatCount u8x, string_ leftPad
+, i32
+    Foo , , int64 x `two words` , calculatedFrom
+stringy `a\` ,
+}
+")).
+Eval vm_compute in ("<<<M568>>>" ++ check (runes_of_ascii "MetaData u
+    { } o MetaData
+{ float uint8x
+`100% of %d` ,repeatCount u8x, string_ leftPad
+, i32
+    Foo , int64 x `two words` , calculatedFrom
+stringy `a\` ,
+}
+")).
+Eval vm_compute in ("<<<M561>>>" ++ check (runes_of_ascii "MetaData u
+    {  MetaData o
+{ float uint8x
+`100% of %d` ,repeatCount u8x, string_ leftPad
+, i32
+    Foo , int64 x `two words` , calculatedFrom
+stringy `a\` ,
+}
+")).
+Eval vm_compute in ("<<<M1562>>>" ++ check (runes_of_ascii "packet A {
+    match k as n {
+        [
+            1, ""bb"", 007, ""d"", 5,
+            ""f"", 7, ""h"", 9, ""j"",
+            11
+        ] : B,
+        2 : C,
+    },
+}")).
+Eval vm_compute in ("<<<M188>>>" ++ check (runes_of_ascii "// `tick` ""quote"" 'q'
+options
+    //	t
+    { metadata  = ""abc"" // `tick` ""quote"" 'q'
+a1  = true
+// a // b
+// " ++ [27880; 37322]%N ++ runes_of_ascii "
+; }
+MetaData
+falsey
+{ char[]
+Logon ,}")).
+Eval vm_compute in ("<<<M1820>>>" ++ check (runes_of_ascii "
+packet 
+A
+
+{
+
+match
+
+    k
+
+    as n{
+[
+1  , 22  ,
+""c c""	, 
+4
+
+    ,
+5	,
+
+    ""f"" , 7 ,
+
+8
+,
+	""i"" ]  :B
+
+,	2	:
+
+C
+
+    }
+    ,
+}
+
+")).
+Eval vm_compute in ("<<<M1652>>>" ++ check (runes_of_ascii "
+
+  packet
+	A{
+	match
+k
+
+as n
+{ [
+
+    ""a"" 
+,
+
+    22 ,
+""c c""
+
+    ,	4
+
+, ""e"" , 66
+
+,""g""
+,
+8  , ""i""
+    ] :
+	B ,
+2  : C } ,}
+
+")).
+Eval vm_compute in ("<<<M1507>>>" ++ check (runes_of_ascii "// c
+options {
+}
+
+options {
+    MetaDataX = char;
+}
+
+MetaData Pad {
+    i8 metadata,
+    string stringy,
+    int8 As `{ , }`,
+}")).
+Eval vm_compute in ("<<<M936>>>" ++ check (runes_of_ascii "packet A {
+    Inner {
+        u8 x `a
+    b
+  c`,
+        Deep {
+            u8 y `a
+    b
+  c`,
+        },
+    },
+}")).
+Eval vm_compute in ("<<<M1215>>>" ++ check (runes_of_ascii "options { } options { MetaDataX = // c
+char ; } MetaData Pad { i8 metadata , string stringy , int8 As `{ , }` , }")).
+Eval vm_compute in ("<<<M1247>>>" ++ check (runes_of_ascii "options { } options { MetaDataX = char ; } MetaData Pad { i8 metadata , string stringy , int8 As `{ , }` , // c
+}")).
+Eval vm_compute in ("<<<M879>>>" ++ check (runes_of_ascii "packet A {
   match k as n {
-    [1, ""bb"", 007, ""d"", 5, ""f"", 7] : B,
+    [""a"", ""bb"", ""c c"", ""d"", ""e"", ""f"", ""g"", ""h"", ""i"", ""j""] : B
     2 : C
   },
 }")).
-Eval vm_compute in ("<<<M1799>>>" ++ check (runes_of_ascii "packet orderItem {
+Eval vm_compute in ("<<<M1804>>>" ++ check (runes_of_ascii "packet  A	{ 
+Inner 
+{
+
+u8
+    x  `100% of %s %d %v` 
+, Deep
+{  u8 y`100% of %s %d %v`  ,
+	}  ,
+
+}	,}
+")).
+Eval vm_compute in ("<<<M880>>>" ++ check (runes_of_ascii "packet A {
+  match k as n {
+    [1, ""bb"", 007, ""d"", 5, ""f"", 7, ""h"", 9, ""j""] : B,
+    2 : C
+  },
+}")).
+Eval vm_compute in ("<<<M885>>>" ++ check (runes_of_ascii "packet A {
+  match k as n {
+    [1, 22, ""c c"", 4, 5, ""f"", 7, 8, ""i"", 10] : B
+    2 : C
+  },
+}")).
+Eval vm_compute in ("<<<M1768>>>" ++ check (runes_of_ascii "
+packet
+	orderItem{
+
+    u8 a
+,
+
+    }root  packet newOrder{	orderItem ,
+u8 x , }
+")).
+Eval vm_compute in ("<<<M753>>>" ++ check (runes_of_ascii "} @tag( string zchar[ float32 f64 @calculatedFrom( i8 lengthOf ) u64 ' ' uint8 @tag(")).
+Eval vm_compute in ("<<<M1316>>>" ++ check (runes_of_ascii "packet orderItem {
     u8 a,
 }
-
 root packet newOrder {
     orderItem,
     u8 x,
-}")).
-Eval vm_compute in ("<<<M769>>>" ++ check (runes_of_ascii "'\x00' , root ] match int64 repeat } ] `line1
-line2` @tag( @calculatedFrom(")).
-Eval vm_compute in ("<<<M1118>>>" ++ check (runes_of_ascii "packet A {
-    match k as n {
-        1 : B // c
-        , // d
-    },
-}")).
-Eval vm_compute in ("<<<M29>>>" ++ check (runes_of_ascii "
-packet options1{ @tag(
-007 )repeat char[
-0123456789] Logon`doc` ,
-}")).
-Eval vm_compute in ("<<<M1703>>>" ++ check (runes_of_ascii "MetaData float
-
-{  packetx
-
-    f32a
-
-    `crlf
-line`
-,
-	}
+}
 ")).
+Eval vm_compute in ("<<<M824>>>" ++ check (runes_of_ascii "packet A {
+  match k as n {
+    [1, 22, 007, 4, 5, 66] : B,
+    2 : C
+  },
+}")).
+Eval vm_compute in ("<<<M803>>>" ++ check (runes_of_ascii "packet A {
+  match k as n {
+    [1, ""bb"", 007, ""d""] : B
+    2 : C
+  },
+}")).
+Eval vm_compute in ("<<<M1617>>>" ++ check (runes_of_ascii "packet
+	leftPad
+	{	i16 charz// trailing space 
+	,// @lengthOf(
+  }
+")).
+Eval vm_compute in ("<<<M118>>>" ++ check (runes_of_ascii "MetaData i64_ { zchar[ // " ++ [27880; 37322]%N ++ runes_of_ascii "
+0123456789 ]
+    i8i8
+    `" ++ [233]%N ++ runes_of_ascii "`,  }")).
 Eval vm_compute in ("<<<M1266>>>" ++ check (runes_of_ascii "root packet P {
     hdr {
         u8 a,
@@ -1103,52 +1078,50 @@ Eval vm_compute in ("<<<M1266>>>" ++ check (runes_of_ascii "root packet P {
     u8 x,
 }
 ")).
-Eval vm_compute in ("<<<M230>>>" ++ check (runes_of_ascii "MetaData // " ++ [27880; 37322]%N ++ runes_of_ascii "
-Foo {
-rootA f32a
-    //
-    , }
-//	t
-")).
-Eval vm_compute in ("<<<M1472>>>" ++ check (runes_of_ascii "packet
-
-A {
-    @tag( 	 // a
-
-  1 )  u8 x
-	,
-}
-")).
-Eval vm_compute in ("<<<M1515>>>" ++ check (runes_of_ascii "// top
-options {
-    A = ""// no comment""
+Eval vm_compute in ("<<<M64>>>" ++ check (runes_of_ascii "options	{
+    BodyLength=
+true ;string_= false ;	} 	 ")).
+Eval vm_compute in ("<<<M925>>>" ++ check (runes_of_ascii "MetaData M {
+    u8 x `a
+b`,
+    T t `a
+b`,
 }")).
-Eval vm_compute in ("<<<M1086>>>" ++ check (runes_of_ascii "packet A {    u8 x, // c    u8 y,}")).
-Eval vm_compute in ("<<<M1649>>>" ++ check (runes_of_ascii "  // c
-root
-
-    packet
-	a1
-
-{ } ")).
-Eval vm_compute in ("<<<M1062>>>" ++ check (runes_of_ascii "packet A {
- u8 x `d 	`, // c 	
+Eval vm_compute in ("<<<M938>>>" ++ check (runes_of_ascii "root packet A {
+    u8 x `a
+    b
+  c`,
 }")).
-Eval vm_compute in ("<<<M1057>>>" ++ check (runes_of_ascii "packet A {
- u8 x `d" ++ [12]%N ++ runes_of_ascii "`, // c" ++ [12]%N ++ runes_of_ascii "
-}")).
-Eval vm_compute in ("<<<M213>>>" ++ check (runes_of_ascii "  MetaData Packet
-    { }
-")).
-Eval vm_compute in ("<<<M1147>>>" ++ check (runes_of_ascii "root packet a1 // c
-{ }")).
-Eval vm_compute in ("<<<M150>>>" ++ check (runes_of_ascii "options //	t
+Eval vm_compute in ("<<<M1094>>>" ++ check (runes_of_ascii "MetaData M {
+}// c
+MetaData N {
+}// d")).
+Eval vm_compute in ("<<<M30>>>" ++ check (runes_of_ascii "
+root packet Pad
 {
-    }")).
-Eval vm_compute in ("<<<M1045>>>" ++ check (runes_of_ascii "packet A {
-}
-// c" ++ [8287]%N)).
-Eval vm_compute in ("<<<M1043>>>" ++ check (runes_of_ascii "packet A {
-}// c" ++ [8287]%N)).
-Eval vm_compute in ("<<<M735>>>" ++ check ([0]%N ++ runes_of_ascii "k" ++ [23; 65533; 21; 31; 65533; 65533; 15473; 65533; 65533; 127; 822; 65533]%N)).
-Eval vm_compute in ("<<<M1029>>>" ++ check (runes_of_ascii "// c" ++ [8232]%N)).
+char[] i8i8 , }")).
+Eval vm_compute in ("<<<M950>>>" ++ check (runes_of_ascii "root packet A {
+    u8 x `x
+`,
+}")).
+Eval vm_compute in ("<<<M1027>>>" ++ check (runes_of_ascii "packet A {
+ u8 x `d" ++ [8202]%N ++ runes_of_ascii "`, // c" ++ [8202]%N ++ runes_of_ascii "
+}")).
+Eval vm_compute in ("<<<M945>>>" ++ check (runes_of_ascii "packet A {
+    u8 x `x
+`,
+}")).
+Eval vm_compute in ("<<<M1141>>>" ++ check (runes_of_ascii "// c
+root packet a1 { }")).
+Eval vm_compute in ("<<<M1665>>>" ++ check (runes_of_ascii "  packet  x // c
+{}
+")).
+Eval vm_compute in ("<<<M1041>>>" ++ check (runes_of_ascii "// c" ++ [8239]%N ++ runes_of_ascii "
+packet A {
+}")).
+Eval vm_compute in ("<<<M1033>>>" ++ check (runes_of_ascii "packet A {
+}// c" ++ [8233]%N)).
+Eval vm_compute in ("<<<M400>>>" ++ check (runes_of_ascii "packet
+    asx")).
+Eval vm_compute in ("<<<M1009>>>" ++ check (runes_of_ascii "// c" ++ [133]%N)).
+Eval vm_compute in ("<<<M160>>>" ++ check (@nil rune)).
